@@ -15,6 +15,8 @@
 //	S t id         span "s<id>" started and ended on tracer t
 //	P id           Inject through the TextMapPropagator obtained before anything was installed
 //	IM IT IP       otel.SetMeterProvider(sdk) / SetTracerProvider(sdk) / SetTextMapPropagator(TraceContext)
+//	XM XT XP       self-set (save/restore helper): otel.SetMeterProvider(otel.GetMeterProvider()) / …TracerProvider… /
+//	               …TextMapPropagator… — a documented no-op while the placeholder is the global value
 //	GM lvl         SetMeterProvider with a delegate whose Meter() (lvl>=1) and whose meters' constructors and
 //	               RegisterCallback (lvl 2) block on a gate when called by the installing goroutine; returns at the
 //	               first gate (or when the installation finished)
@@ -88,7 +90,7 @@ type world struct {
 	relCh     chan struct{}
 	instDone  chan struct{}
 	instGoid  atomic.Int64
-	active    bool   // a gated installer has been started and has not finished
+	active    bool // a gated installer has been started and has not finished
 	atGate    bool
 	cur       string // name of the current gate
 	curMeter  int    // meter whose lock the installer holds at the current gate (-1 none)
@@ -426,6 +428,12 @@ func (w *world) exec(op []string) {
 		otel.SetTracerProvider(w.tp)
 	case "IP":
 		otel.SetTextMapPropagator(propagation.TraceContext{})
+	case "XM":
+		otel.SetMeterProvider(otel.GetMeterProvider())
+	case "XT":
+		otel.SetTracerProvider(otel.GetTracerProvider())
+	case "XP":
+		otel.SetTextMapPropagator(otel.GetTextMapPropagator())
 	case "Y":
 		for i := atoi(op[1]); i > 0; i-- {
 			runtime.Gosched()
